@@ -11,6 +11,7 @@ import (
 	"path/filepath"
 	"sort"
 	"strings"
+	"sync"
 	"syscall"
 	"time"
 
@@ -24,6 +25,11 @@ const (
 
 type filestore struct {
 	gcsDir string
+
+	// dirMu keeps the removal of emptied directories (Delete) apart from the creation of an object's directories and
+	// files (Add): requests are only serialised per object, and a directory that one object's Add has just created
+	// (or found) must not be removed by the Delete of a sibling object before the file is in it.
+	dirMu sync.RWMutex
 }
 
 var _ Store = (*filestore)(nil)
@@ -139,6 +145,8 @@ func (fs *filestore) Add(bucket string, filename string, contents []byte, meta *
 		return fmt.Errorf("could not write: %s/%s: the file store cannot hold an object name that ends in \"/\"", bucket, filename)
 	}
 	f := fs.filename(bucket, filename)
+	fs.dirMu.RLock()
+	defer fs.dirMu.RUnlock()
 	if err := os.MkdirAll(filepath.Dir(f), 0777); err != nil {
 		return fmt.Errorf("could not create dirs for:  %s: %w", f, err)
 	}
@@ -247,6 +255,8 @@ func (fs *filestore) Delete(bucket string, filename string) error {
 	}
 
 	// Try to delete empty directories
+	fs.dirMu.Lock()
+	defer fs.dirMu.Unlock()
 	for fp := filepath.Dir(f); len(fp) > len(fs.filename(bucket, "")); fp = filepath.Dir(fp) {
 		files, err := os.ReadDir(fp)
 		if err != nil || len(files) > 0 {
